@@ -97,7 +97,7 @@ func implFamily(p *core.Program, t types.Type) []*ssa.Function {
 
 func typeLabel(t types.Type) string {
 	if n := core.NamedOf(t); n != nil {
-		return n.Obj().Name()
+		return core.TName(n)
 	}
 	return t.String()
 }
